@@ -274,6 +274,7 @@ func (c *Conn) writeFrame(ctx context.Context, fin bool, flate bool, opcode opco
 	case <-c.closed:
 		return 0, net.ErrClosed
 	case c.writeTimeout <- ctx:
+		vhook(6, c, nil, 1, 1)
 	}
 
 	defer func() {
@@ -292,6 +293,7 @@ func (c *Conn) writeFrame(ctx context.Context, fin bool, flate bool, opcode opco
 	if opcode == opClose {
 		c.closeSent = true
 	}
+	vhook(5, c, nil, int(opcode), b2i(fin))
 
 	c.writeHeader.fin = fin
 	c.writeHeader.opcode = opcode
@@ -335,6 +337,7 @@ func (c *Conn) writeFrame(ctx context.Context, fin bool, flate bool, opcode opco
 		}
 		return n, net.ErrClosed
 	case c.writeTimeout <- context.Background():
+		vhook(6, c, nil, 1, 0)
 	}
 
 	return n, nil
